@@ -8,7 +8,7 @@
      (i')  render cfg (d_prog cfg p1) = real t2                 model printer (layout level), see Model/Pretty.v
      (ii)  parse (lex t2)  =  p2                                model parser on the printed text
      (iii) the property on the implementation's outputs: p2 = p1 and t3 = t2.  The model describes the
-           REPAIRED printer (zero-literal defect, fix commit <commit>), so every failure is a violation;
+           REPAIRED printer (zero-literal defect, fix commit c039e57), so every failure is a violation;
            [old_renorm], the closed description of the behaviour before the repair, only names a recurrence:
              VIOL class=tree-changed:minus-zero-comparison   p2 is exactly old_renorm p1 (<> p1)
              VIOL class=unparsable:zero-literal-comparison   p2 does not parse and old_renorm p1 = None
